@@ -77,8 +77,9 @@ claim('C15',
       'Decided: table properties (exhaustive over the finite table), '
       'converter structure, use by the .p8 reader/writer with UTF-8. '
       'Trusted: the constant evaluator, Python str semantics, the '
-      'unique-decodability argument. Converters rewritten in another idiom '
-      'yield an analysis error (exit 2), not a verdict.',
+      'unique-decodability argument. The converters are evaluated '
+      'path-wise; code the evaluator cannot follow yields an analysis error '
+      '(exit 2), not a verdict.',
       'static analysis: constant evaluation of the table + exhaustive table '
       'checks + structural dataflow check of the two converters',
       'DESIGN.md section 4 C15')
@@ -95,7 +96,10 @@ claim('C07',
       'every token by induction, tokens are lexed from the remaining text), '
       'line-locality of rows, opener/terminator agreement and state reset, '
       'that TokNumber.value never raises on a spelling the table accepts, '
-      'one counter step per byte. Not decided: the numeric value computed by '
+      'position counters advance over exactly the consumed text (per-byte '
+      'loop decided on paths; a closed-form count/rfind rewrite is evaluated '
+      'only on all strings over {a, newline} up to length 4 -- bounded, not a '
+      'proof). Not decided: the numeric value computed by '
       'the conversions, decoded string bytes (see C06), get_token_count\'s '
       'counting rules. Trusted base: refs/lexical.py (reference grammar), '
       'long-bracket levels > 2 behave like 0-2.',
@@ -251,12 +255,15 @@ claim('C06',
       'structure and default selection, encode/decode identity for every '
       'byte in every right context (exhaustive over a finite product), '
       'reference escape values. Not decided: byte-for-byte equality of a '
-      'concrete echo (composition on paper). Extraction is by recognised '
-      'shape: a rewritten encoder/decoder loop yields exit 2, not a verdict. '
+      'concrete echo (composition on paper). Encoder and decoder are '
+      'extracted by evaluating their loops per concrete byte with the rest '
+      'of the string kept as a regular-language condition; a loop the '
+      'evaluator cannot follow yields exit 2, not a verdict. '
       'Trusted: refs/escapes.py.',
-      'static analysis: symbolic extent checks, specification extraction of '
-      'encoder/decoder (evaluated tables + regex automata) and exhaustive '
-      'composition over the finite byte x context product',
+      'static analysis: path-wise symbolic extent checks, byte-transducer '
+      'extraction of encoder/decoder (evaluated tables + regular-language '
+      'conditions) and exhaustive composition over the finite byte x context '
+      'product',
       'DESIGN.md section 4 C06')
 
 claim('C18',
@@ -334,9 +341,10 @@ claim('C04',
       'DESIGN.md section 4 C04')
 claim('C05',
       'Decides the compression codec as arithmetic: encoder and decoder item '
-      'formulas are normalised to linear forms with evaluated constants and '
-      'must agree with each other and with the format (radix, biases, mask, '
-      'shift, table, branch partition); guard shapes of the match search '
+      'formulas are extracted and must agree with each other and with the '
+      'format (the decoder branch tests are evaluated for all 256 byte '
+      'values, the block formulas on the whole offset x length grid 1..3120 '
+      'x 3..17; table; header); guard shapes of the match search '
       'give, by interval arithmetic on evaluated constants, 3 <= length <= '
       '17, 1 <= offset <= min(pos, 3120), bytes in range, no overlap; the '
       'decoder must copy back-references element-wise (correct for '
@@ -347,9 +355,9 @@ claim('C05',
       'parse); the _update60 compatibility suffix surgery (value-dependent). '
       'The search-loop rule recognises the loop by shape: a rewritten search '
       'yields exit 2.',
-      'static analysis: linear-form normalisation with constant evaluation, '
-      'guard-shape recognition + interval arithmetic, idiom check of the '
-      'copy loop',
+      'static analysis: path-wise extraction of codec formulas + exhaustive '
+      'evaluation over their finite domains, guard-shape recognition + '
+      'interval arithmetic, path check of the copy loop',
       'DESIGN.md section 4 C05')
 claim('C16',
       'Each codec direction (gfx, gff/map, sfx lines and note accessors, '
@@ -412,9 +420,11 @@ def main():
             'serves_properties': [c['property_id'] for c in checks],
             'kind_free_text': 'repository-specific static analyser over '
                               'Python ast: source model + call graph, '
-                              'constant evaluator, statement CFG with '
-                              'dominance, bit/interval abstract domains, '
-                              'regex automata',
+                              'delta normaliser against a frozen name '
+                              'inventory, constant evaluator, statement CFG '
+                              'with dominance, path-wise symbolic evaluator, '
+                              'bit/interval abstract domains, regex automata '
+                              'and predicate languages',
         }],
         'checks': checks,
         'not_applicable': na,
@@ -423,7 +433,11 @@ def main():
                  'VIOLATION line = a recognised construct breaks a rule; '
                  'exit 2 + ANALYSIS-ERROR = an anchor vanished or an idiom '
                  'is outside the model (never a silent pass). Known, '
-                 'unrepaired defects are listed in known_findings.json.',
+                 'unrepaired defects are listed in known_findings.json. '
+                 'DESIGN.md sections 9-10 describe what was built and how '
+                 'the checks fared on 20 breaking changes and 20 '
+                 'behaviour-preserving refactorings written by independent '
+                 'sub-agents (seeded/).',
     }
     with open(os.path.join(VERIF, 'MANIFEST.json'), 'w') as fh:
         json.dump(man, fh, indent=1)
